@@ -50,9 +50,11 @@ impl<const S: bool> SymI<S> {
         let ok = Self::in_range(n);
         if !matches!(ok, Fm::Lit(true)) {
             with(|e| {
-                let k = e.range_obl.len();
-                let prev: Vec<Fm> = e.hyps.iter().filter(|(g, _)| g == "law/").map(|(_, f)| f.clone()).collect();
-                e.range_obl.push((format!("range#{} {}", k, what), imp(and(prev), ok.clone())));
+                if !e.range_assumed {
+                    let k = e.range_obl.len();
+                    let prev: Vec<Fm> = e.hyps.iter().filter(|(g, _)| g == "law/").map(|(_, f)| f.clone()).collect();
+                    e.range_obl.push((format!("range#{} {}", k, what), imp(and(prev), ok.clone())));
+                }
                 // later obligations and the law/ goals may assume it (the code would have panicked otherwise)
                 e.hyps.push(("law/".into(), ok));
             });
